@@ -260,8 +260,18 @@ func (h harness) seq(r *vx.Run) *vx.Seq[*sys] {
 		}
 		v := s.pending[k]
 		s.pending = append(s.pending[:k:k], s.pending[k+1:]...)
+		known := func(op, perr string) string {
+			if strings.Contains(perr, "ErrNodeNotExist") && s.cfg.MemTree && s.cfg.Prefix && s.aliased {
+				return fmt.Sprintf("node-missing:memTree+prefix:node-of-uncommitted-pending-update-served-from-memTree| %s panics: %s", h.opName(i), vx.Norm(perr, 60))
+			}
+			return fmt.Sprintf("%s-panics:%s| %s panics: %s", op, s.cfg.Name, h.opName(i), perr)
+		}
 		if i-2*n < 2 {
-			got, err := s.st.Commit(&types.ReqHash{Hash: v.root})
+			var got []byte
+			var err error
+			if perr := vx.Catch(func() { got, err = s.st.Commit(&types.ReqHash{Hash: v.root}) }); perr != "" {
+				return known("commit", perr)
+			}
 			if err != nil || !bytes.Equal(got, v.root) {
 				return fmt.Sprintf("commit-returns-other-root:%s| Commit(%x) returned %x, %v", s.cfg.Name, v.root, got, err)
 			}
@@ -273,7 +283,12 @@ func (h harness) seq(r *vx.Run) *vx.Seq[*sys] {
 			s.markAlias()
 			return ""
 		}
-		if got, err := s.st.Rollback(&types.ReqHash{Hash: v.root}); err != nil || !bytes.Equal(got, v.root) {
+		var got []byte
+		var err error
+		if perr := vx.Catch(func() { got, err = s.st.Rollback(&types.ReqHash{Hash: v.root}) }); perr != "" {
+			return known("rollback", perr)
+		}
+		if err != nil || !bytes.Equal(got, v.root) {
 			return fmt.Sprintf("rollback-fails:%s| Rollback(%x) returned %x, %v", s.cfg.Name, v.root, got, err)
 		}
 		r.Seen("outcomes", "rollback:"+s.situation())
